@@ -87,5 +87,13 @@ def r01_6(ctx):
 r01_6.rule_id = "R01.6"
 
 
-RULES = [r01_1, r01_2, r01_3, r01_4, r01_5, r01_6]
-FLOORS = {"R01.2r": 8, "R01.1": 5, "R01.2": 6, "R01.3": 8, "R01.4": 4, "R01.4a": 2, "R01.5": 2, "R01.6": 6}
+def r01_7(ctx):
+    F = ctx.need("cds::gc::hp::details::basic_smr::alloc_thread_data")[0]
+    n = smr.rule_list_push(ctx, "R01.7", F, "thread_list_", "next_", "A thread whose record is not in thread_list_ publishes hazard pointers that no scan reads (C01).")
+    if n < 1:
+        ctx.broken("no winning push onto thread_list_ found in alloc_thread_data")
+r01_7.rule_id = "R01.7"
+
+
+RULES = [r01_1, r01_2, r01_3, r01_4, r01_5, r01_6, r01_7]
+FLOORS = {"R01.2r": 8, "R01.1": 5, "R01.2": 6, "R01.3": 8, "R01.4": 4, "R01.4a": 2, "R01.5": 2, "R01.6": 6, "R01.7": 1}
